@@ -244,6 +244,59 @@ def _block(stmts, fn_counts):
                 s.value = ref
             stmts[i:i + 1] = [init, loop] if direct else [init, loop, s]
             s = init
+        # 6d. `x = next((E for T in I if C), D)` is `x = D; for T in I: if C: x = E; break`; and when the search result is only used by an
+        #     immediately following `if x is not None: BODY` (D is None, E is the loop variable, C dereferences it - so a found element is
+        #     not None), the whole is the search loop with the body inside: `for T in I: if C: BODY[x := T]; break`
+        if isinstance(s, ast.Assign) and len(s.targets) == 1 and isinstance(s.targets[0], ast.Name) and isinstance(s.value, ast.Call) \
+                and isinstance(s.value.func, ast.Name) and s.value.func.id == 'next' and len(s.value.args) == 2 and not s.value.keywords \
+                and isinstance(s.value.args[0], ast.GeneratorExp) and len(s.value.args[0].generators) == 1 and not s.value.args[0].generators[0].is_async \
+                and isinstance(s.value.args[1], (ast.Constant, ast.Name)) \
+                and not any(isinstance(x, (ast.ListComp, ast.SetComp, ast.DictComp, ast.GeneratorExp, ast.Lambda, ast.Await, ast.NamedExpr, ast.Yield, ast.YieldFrom))
+                            for x in ast.walk(s.value.args[0]) if x is not s.value.args[0]) \
+                and not any(isinstance(x, ast.Name) and x.id == s.targets[0].id for x in ast.walk(s.value)):
+            import copy
+            ge, dflt = s.value.args
+            g = ge.generators[0]
+            x = s.targets[0].id
+            nxt = stmts[i + 1] if i + 1 < len(stmts) else None
+            fused = False
+            if isinstance(dflt, ast.Constant) and dflt.value is None and isinstance(ge.elt, ast.Name) and isinstance(g.target, ast.Name) \
+                    and ge.elt.id == g.target.id and isinstance(nxt, ast.If) and not nxt.orelse \
+                    and isinstance(nxt.test, ast.Compare) and len(nxt.test.ops) == 1 and isinstance(nxt.test.ops[0], ast.IsNot) \
+                    and isinstance(nxt.test.left, ast.Name) and nxt.test.left.id == x \
+                    and isinstance(nxt.test.comparators[0], ast.Constant) and nxt.test.comparators[0].value is None \
+                    and any(isinstance(a_, ast.Attribute) and isinstance(a_.value, ast.Name) and a_.value.id == g.target.id for c in g.ifs for a_ in ast.walk(c)):
+                T = g.target.id
+                body_loads = sum(1 for b in nxt.body for y in ast.walk(b) if isinstance(y, ast.Name) and y.id == x and isinstance(y.ctx, ast.Load))
+                body_stores = any(isinstance(y, ast.Name) and y.id in (x, T) and isinstance(y.ctx, (ast.Store, ast.Del)) for b in nxt.body for y in ast.walk(b))
+                jumps = any(isinstance(y, (ast.Break, ast.Continue, ast.FunctionDef, ast.AsyncFunctionDef, ast.Lambda, ast.ClassDef)) for b in nxt.body for y in ast.walk(b))
+                if fn_counts.get(x) == (1 + body_loads, 1) and fn_counts.get(T, (0, 0))[1] == 1 and not body_stores and not jumps:
+                    body = [_RenameLoads({x: ast.Name(id=T, ctx=ast.Load())}).visit(copy.deepcopy(b)) for b in nxt.body] + [ast.Break()]
+                    inner = None
+                    for c in reversed(g.ifs):
+                        inner = ast.If(test=c, body=body if inner is None else [inner], orelse=[])
+                    loop = ast.For(target=g.target, iter=g.iter, body=[inner], orelse=[], type_comment=None)
+                    for y in ast.walk(loop):
+                        if not hasattr(y, 'lineno'):
+                            ast.copy_location(y, s)
+                    ast.fix_missing_locations(loop)
+                    stmts[i:i + 2] = [loop]
+                    fused = True
+            if fused:
+                continue
+            hit = [ast.Assign(targets=[ast.Name(id=x, ctx=ast.Store())], value=ge.elt), ast.Break()]
+            inner = None
+            for c in reversed(g.ifs):
+                inner = ast.If(test=c, body=hit if inner is None else [inner], orelse=[])
+            loop = ast.For(target=g.target, iter=g.iter, body=[inner] if inner is not None else hit, orelse=[], type_comment=None)
+            init = ast.Assign(targets=[ast.Name(id=x, ctx=ast.Store())], value=dflt)
+            for top in (loop, init):
+                for y in ast.walk(top):
+                    if not hasattr(y, 'lineno'):
+                        ast.copy_location(y, s)
+                ast.fix_missing_locations(top)
+            stmts[i:i + 1] = [init, loop]
+            s = init
         # 2b. `D.setdefault(K, []).append(V)` is `if K not in D: D[K] = [V] else: D[K].append(V)` (D, K, V plain names / attribute chains / constants)
         if isinstance(s, ast.Expr) and isinstance(s.value, ast.Call) and isinstance(s.value.func, ast.Attribute) and s.value.func.attr == 'append' \
                 and len(s.value.args) == 1 and not s.value.keywords and isinstance(s.value.func.value, ast.Call) \
